@@ -145,6 +145,12 @@ func c01Sinks() []c01Sink {
 		{name: "rcdata-textarea", tpl: func(a, b string) string { return `<textarea data-m="1">` + a + `{{ v }}` + b + `</textarea><p>after</p>` }},
 		// whitespace-preserving elements are written by a separate serialiser path
 		{name: "pre-text", tpl: func(a, b string) string { return `<pre><code data-m="1">` + a + `{{ v }}` + b + `</code></pre><p>after</p>` }},
+		// the value as the argument of a function or filter: it is data there too, never a path to look up
+		{name: "fn-arg-filter", tpl: func(a, b string) string { return `<p data-m="1">` + a + `{{ nothing | default(v) }}` + b + `</p><p>after</p>` }},
+		{name: "fn-arg-call", tpl: func(a, b string) string { return `<p data-m="1">` + a + `{{ string(v) }}` + b + `</p><p>after</p>` }},
+		{name: "fn-arg-attr", attr: "title", tpl: func(a, b string) string { return `<p data-m="1" :title="string(v)">t</p><p>after</p>` }},
+		{name: "fn-arg-v-text", tpl: func(a, b string) string { return `<div v-for="x in vs"><p data-m="1" v-text="string(x)">old</p></div><p>after</p>` }},
+		{name: "fn-arg-piped", tpl: func(a, b string) string { return `<p data-m="1">` + a + `{{ v | string | default(v) }}` + b + `</p><p>after</p>` }},
 		{name: "pre-direct", tpl: func(a, b string) string { return `<pre data-m="1">` + a + `{{ v }}` + b + `</pre><p>after</p>` }},
 		{name: "pre-direct-loop", tpl: func(a, b string) string { return `<div v-for="x in vs"><pre data-m="1">` + a + `{{ x }}` + b + `</pre></div><p>after</p>` }},
 		{name: "textarea-in-branch", tpl: func(a, b string) string { return `<form v-if="yes"><textarea data-m="1" name="bio">` + a + `{{ v }}` + b + `</textarea></form><p>after</p>` }},
@@ -375,6 +381,8 @@ func runC01(r *Run) {
 	neigh := [][2]string{{"", ""}, {"pre ", " post"}, {"A &amp; B ", " &lt;c&gt;"}, {"q&quot; ", " 'x'"}, {"{ {x} ", " }"}, {"\n", "\n"}, {"\n\n", ""}}
 	// values that begin with a line break (a parser drops one line feed after <pre> and <textarea>; the
 	// serialiser compensates for it, and must still escape what follows)
+	// values that spell the name or path of another variable in scope
+	values = append(values, "secret", "vs", "yes", "two[0]", "vs.0", "v", "nothing", "secret | upper")
 	for _, t := range []string{"textarea", "pre", "xmp", "title"} {
 		values = append(values, "\n</"+t+"><img src=x onerror=alert(1)>", "\n\n<b>x</b></"+t+">", "\r\n</"+t+"><i>")
 	}
@@ -416,6 +424,8 @@ func runC01(r *Run) {
 				dec := func(s string) string { return stdhtml.UnescapeString(s) }
 				want := dec(nb[0]) + v + dec(nb[1])
 				switch sk.name {
+				case "fn-arg-attr", "fn-arg-v-text":
+					want = v
 				case "v-text", "attr-bound", "for-child-attr", "include-bound-prop-attr", "chain-branch-v-text", "slot-twice-include-prop-attr", "pre-v-text", "pre-v-text-loop", "pre-attr-bound", "textarea-v-text":
 					want = v
 				case "attr-bound-class-merge":
@@ -431,7 +441,7 @@ func runC01(r *Run) {
 				if sk.name == "rawtext-include-prop" && strings.TrimSpace(v) == "" {
 					want = sink
 				}
-				if sk.attr != "" && strings.TrimSpace(v) == "" && (sk.name == "attr-bound" || sk.name == "pre-attr-bound" || sk.name == "for-child-attr" || sk.name == "for-root" || sk.name == "include-bound-prop-attr") {
+				if sk.attr != "" && strings.TrimSpace(v) == "" && (sk.name == "attr-bound" || sk.name == "fn-arg-attr" || sk.name == "pre-attr-bound" || sk.name == "for-child-attr" || sk.name == "for-root" || sk.name == "include-bound-prop-attr") {
 					want = sink // a falsy bound value omits the attribute (C14)
 				}
 				if sk.name == "include-bound-prop" || sk.name == "include-bound-prop-attr" || sk.name == "slot-prop" || sk.name == "slot-twice-include-prop" || sk.name == "slot-twice-include-prop-attr" || sk.name == "include-in-loop" || sk.name == "include-nested-prop" {
